@@ -417,6 +417,10 @@ pub fn run(sc: &Scenario, recvs: &'static BTreeMap<&'static str, RecvDesc>) -> J
     input::for_each_item(&doc, &mut |it| {
         items.insert(it.r_item.0, it.id);
         parts.insert(it.id, (it.r_path, it.r_value));
+        // seams that are handed the value (from_value / from_expr overrides) find the item by where its value starts
+        if let (input::Form::NV(_), Some(rv)) = (&it.form, it.r_value) {
+            items.insert(rv.0, it.id);
+        }
     });
     input::for_each_element(&doc, &mut |id, r| {
         items.insert(r.0, id);
@@ -452,7 +456,7 @@ pub fn run(sc: &Scenario, recvs: &'static BTreeMap<&'static str, RecvDesc>) -> J
     if !matches!(exp, Expected::Panic(_) | Expected::NoPanic) && !matches!(outcome, Outcome::Panic(_) | Outcome::SimPanic(_)) {
         let mut counts: BTreeMap<u32, u32> = BTreeMap::new();
         for c in &j.log {
-            if let (Some(id), true) = (c.item, matches!(c.hook.as_str(), "from_meta" | "with" | "from_string" | "from_field")) {
+            if let (Some(id), true) = (c.item, matches!(c.hook.as_str(), "from_meta" | "with" | "from_string" | "from_field" | "from_value" | "from_expr")) {
                 *counts.entry(id).or_insert(0) += 1;
             }
         }
@@ -477,6 +481,19 @@ pub fn run(sc: &Scenario, recvs: &'static BTreeMap<&'static str, RecvDesc>) -> J
     // recovery (C02.R7 / C07.R4): same input, same thread, faults cleared
     if std::thread::panicking() {
         j.failures.push(fail("C07.R4", "thread still panicking after the run"));
+    }
+    if matches!(outcome, Outcome::SimPanic(_) | Outcome::Panic(_)) {
+        // after an unwind went through the parser: drop bombs must be armed again on this thread
+        let r = {
+            let _g = InParse::enter();
+            catch_unwind(|| {
+                let _unfinished = darling::Error::accumulator();
+            })
+        };
+        if r.is_ok() {
+            j.failures.push(fail("C07.R4", "after a panic unwound through the parser, an unfinished accumulator no longer panics on drop"));
+        }
+        LAST_PANIC.with(|p| p.borrow_mut().take());
     }
     if !sc.env.faults.is_empty() {
         let mut clean_env = sc.env.clone();
